@@ -55,6 +55,7 @@ inductive Expr
   | addrTls (g : String)
   | fieldAddr (e : Expr) (f : String)  -- `&(e)->f`
   | pload (e : Expr)                   -- plain load of `*e`
+  | parent (e : Expr) (f : String)     -- `caa_container_of(e, T, f)` for a member f that is not at offset 0: e must be `&obj->f`
   | index (e i : Expr)                 -- `&(e)[i]`: element i of the array at e (named as the field "[i]")
   | un (op : UnOp) (e : Expr)
   | bin (op : BinOp) (a b : Expr)
@@ -149,6 +150,10 @@ def eval (env : Env) : Expr → Except String Val
   | .fieldAddr e f => do
     let l ← asLoc (← eval env e)
     .ok (.ptr (.field l f))
+  | .parent e f => do
+    match ← asLoc (← eval env e) with
+    | .field b g => if g = f then .ok (.ptr b) else .error s!"container_of: the pointer is the address of member {g}, not {f}"
+    | _ => .error "container_of: the pointer is not the address of a member"
   | .index e i => do
     let l ← asLoc (← eval env e)
     match ← eval env i with
